@@ -37,7 +37,37 @@ class ExtractionError(Exception):
 class _Desugar(ast.NodeTransformer):
     """Mechanical, semantics-preserving normalisation applied to the extracted text before it is executed symbolically
     (stated in DESIGN 11.6):  `yield from (E for a in A for b in B if C)`  is executed as the nested loops
-    `for a in A: for b in B: if C: yield E`  (a generator expression consumed at once by `yield from`)."""
+    `for a in A: for b in B: if C: yield E`  (a generator expression consumed at once by `yield from`);
+    `for x in E: yield x`  is executed as  `yield from E`  (see visit_For)."""
+
+    def __init__(self):
+        self.functions = []
+
+    def visit_FunctionDef(self, node):
+        self.functions.append(node)
+        try:
+            self.generic_visit(node)
+        finally:
+            self.functions.pop()
+        return node
+
+    def visit_For(self, node):
+        """`for x in E: yield x` (nothing else in the body, no else suite, `x` used nowhere else in the function) is executed as
+        `yield from E`: the same items in the same order for every consumer that only iterates (no send / throw); the loop is a spelling
+        of the delegation, not a loop of its own (it takes no loop clause and no ordinal)"""
+        self.generic_visit(node)
+        if node.orelse or not isinstance(node.target, ast.Name) or len(node.body) != 1 or not self.functions:
+            return node
+        b = node.body[0]
+        if not (isinstance(b, ast.Expr) and isinstance(b.value, ast.Yield) and isinstance(b.value.value, ast.Name) and b.value.value.id == node.target.id):
+            return node
+        uses = sum(1 for n in ast.walk(self.functions[-1]) if isinstance(n, ast.Name) and n.id == node.target.id)
+        if uses != 2:
+            return node
+        new = ast.Expr(value=ast.YieldFrom(value=node.iter))
+        ast.copy_location(new, node)
+        ast.fix_missing_locations(new)
+        return new
 
     def visit_Expr(self, node):
         self.generic_visit(node)
@@ -69,7 +99,10 @@ def parse_file(relpath):
     path = _abspath(relpath)
     if relpath in OVERRIDES:
         src = OVERRIDES[relpath]
-        return src, ast.parse(src, filename=path)
+        key = ('override', path, hashlib.sha256(src.encode()).hexdigest())
+        if key not in _cache:          # ONE tree per text: a helper found by two lookups must be the same node (engine.Expansion)
+            _cache[key] = (src, ast.parse(src, filename=path))
+        return _cache[key]
     key = (path, os.stat(path).st_mtime_ns)
     if key not in _cache:
         with open(path, encoding='utf-8') as f:
@@ -87,7 +120,9 @@ def get_function(relpath, qualname):
     parts = [p for p in qualname.split('.') if p != '<locals>']
     node = tree
     cls = None
+    enclosing = None
     for p in parts:
+        enclosing = node if isinstance(node, ast.FunctionDef) else None      # the function a nested function is defined in
         found = None
         for child in _children(node):
             if isinstance(child, (ast.FunctionDef, ast.ClassDef)) and child.name == p:
@@ -102,7 +137,9 @@ def get_function(relpath, qualname):
     if not getattr(node, '_desugared', False):
         _Desugar().visit(node)
         node._desugared = True
-    return Extracted(relpath, qualname, node, ast.get_source_segment(src, node), cls)
+    x = Extracted(relpath, qualname, node, ast.get_source_segment(src, node), cls)
+    x.enclosing = enclosing
+    return x
 
 
 def _children(node):
